@@ -8,6 +8,7 @@ import TrionModel.Driver.Map
 import TrionModel.Driver.Seg
 import TrionModel.Driver.Scope
 import TrionModel.Driver.Tridas
+import TrionModel.Driver.Front
 /-! `trion-model`: one request per line on stdin, one reply per line on stdout.
 The first word selects the component; every request is self-contained (pure). -/
 open Trion.Driver
@@ -23,6 +24,7 @@ def dispatch : List String → String
   | "seg" :: r => Seg.handle r
   | "scope" :: r => Scope.handle r
   | "tridas" :: r => Tridas.handle r
+  | "front" :: r => Front.handle r
   | ["ping"] => "pong"
   | _ => "bad-op"
 
